@@ -345,3 +345,31 @@ Definition trecord (st : crn_state) : tok :=
 Definition run_crn (c : crn_cfg) (t : exec_table) (calls : list (list (option N))) (runs : list (bool * nat)) : tok :=
   L [ tlist (fun pw : bool * nat => tlist trecord (fst (builds_from c (fst pw) (snd pw) t crn_new calls))) runs;
       tlist tnat (snd (builds_from c false 0 t crn_new calls)) ].
+
+(** * joblib.Parallel(n_jobs)(delayed(f)(row) for row in rows) — AAMValidator.validate_smiles, BalanceReactionCheck.dicts_balance_check
+
+    The per-row function is abstract ([f]); the worker pool returns the results in submission order (its contract): modelled
+    as a chunked map, like executor.map above.  What the callers do with the result list is modelled literally:
+    validate_smiles keeps the list and counts the successes, dicts_balance_check splits it (stably) by the verdict. *)
+Definition rows_parallel {A B} (n_jobs : nat) (f : A -> B) (rows : list A) : list B :=
+  if (1 <? n_jobs)%nat then par_map (Nat.div (length rows) n_jobs) f rows else map f rows.
+
+(** one mapped column of validate_smiles: the per-row results and (number of successes, number of rows) — the accuracy *)
+Definition validate_column {A} (n_jobs : nat) (check : A -> bool) (rows : list A) : list bool * (nat * nat) :=
+  let results := rows_parallel n_jobs check rows in
+  (results, (length (filter (fun b => b) results), length rows)).
+
+(** dicts_balance_check: (balanced rows, unbalanced rows), each in input order *)
+Definition balance_split {A} (n_jobs : nat) (check : A -> bool) (rows : list A) : list A * list A :=
+  let results := rows_parallel n_jobs (fun r => (r, check r)) rows in
+  (map fst (filter (fun p => snd p) results), map fst (filter (fun p => negb (snd p)) results)).
+
+(** observables: the rows are their indices, [verdicts] the per-row answers of the single-row entry point *)
+Definition run_validate (jobs : list nat) (cols : list (list bool)) : tok :=
+  tlist (fun nj => tlist (fun verdicts : list bool =>
+                            let '(res, (ok, n)) := validate_column nj (fun i => nth i verdicts false) (seq 0 (length verdicts)) in
+                            L [tlist tbool res; tnat ok; tnat n]) cols) jobs.
+
+Definition run_balance (jobs : list nat) (verdicts : list bool) : tok :=
+  tlist (fun nj => let '(b, u) := balance_split nj (fun i => nth i verdicts false) (seq 0 (length verdicts)) in
+                   L [tlist tnat b; tlist tnat u]) jobs.
